@@ -94,19 +94,39 @@ func (*footnoteASTTransformer).Transform
   loop 3 dec refCount - i
 
 // ---- tables (C17): every body row has exactly as many cells as there are columns ----
+// child lists of nodes that existed before a call are untouched by it
+macro oldKept() = (forall p addr {klen(p)} :: int(ifptr(p)) < old(allocbound()) ==> klen(p) == old(klen(p))) &&
+                  (forall p addr, i int {kid(p, i)} :: int(ifptr(p)) < old(allocbound()) ==> kid(p, i) == old(kid(p, i))) &&
+                  (forall w addr {par(w)} :: int(ifptr(w)) < old(allocbound()) ==> par(w) == old(par(w)))
 func (*tableParagraphTransformer).parseRow
   uses nodeModel
   requires WF() && reader != nil && pc != nil
-  requires 0 <= segment.Start && segment.Start <= segment.Stop && segment.Stop <= srcLenOf(reader) && segment.Padding >= 0
+  requires [C01_seg] 0 <= segment.Start && segment.Start <= segment.Stop && segment.Stop <= srcLenOf(reader) && segment.Padding >= 0
   ensures WF()
-  ensures [nonnil] result != nil
+  ensures [nonnil] result != nil && fresh(result) && par(asnode(result)) == nil
   ensures [width] !isHeader ==> (klen(asnode(result)) == len(alignments) && cnt(asnode(result)) == len(alignments))
-  loop 0 inv WF() && row != nil && klen(asnode(row)) == i && 0 <= i && (!isHeader ==> i <= len(alignments))
+  ensures [count] cnt(asnode(result)) == klen(asnode(result))
+  ensures [others] oldKept()
+  loop 0 inv WF() && row != nil && fresh(row) && par(asnode(row)) == nil && klen(asnode(row)) == i && 0 <= i && (!isHeader ==> i <= len(alignments)) && oldKept()
   loop 0 inv 0 <= pos && limit <= len(line) && len(source) == srcLenOf(reader)
   loop 0 inv 0 <= segment.Start && segment.Start + len(line) <= len(source) && segment.Padding >= 0
-  loop 1 inv WF() && row != nil && klen(asnode(row)) == i && 0 <= i && (!isHeader ==> i <= len(alignments))
+  loop 1 inv WF() && row != nil && fresh(row) && par(asnode(row)) == nil && klen(asnode(row)) == i && 0 <= i && (!isHeader ==> i <= len(alignments)) && oldKept()
   loop 1 inv 0 <= pos && pos <= closure && closure <= limit && limit <= len(line) && len(source) == srcLenOf(reader)
   loop 1 inv 0 <= segment.Start && segment.Start + len(line) <= len(source) && segment.Padding >= 0
-  loop 1 inv node != nil && isoNew(asnode(node)) && asnode(node) != asnode(row)
-  loop 2 inv WF() && row != nil && klen(asnode(row)) == i && (!isHeader ==> i <= len(alignments))
+  loop 1 inv node != nil && isoNew(asnode(node)) && asnode(node) != asnode(row) && fresh(node)
+  loop 2 inv WF() && row != nil && fresh(row) && par(asnode(row)) == nil && klen(asnode(row)) == i && (!isHeader ==> i <= len(alignments)) && oldKept()
+
+// Transform: a table is only built when the candidate header row has exactly one cell per column of the delimiter
+// row; the header and every body row appended to the table then have that many cells (the table is rectangular)
+func (*tableParagraphTransformer).Transform
+  uses nodeModel
+  requires WF() && node != nil && reader != nil && pc != nil && par(asnode(node)) != nil
+  callassert [headerWidth] ast.(*BaseNode).AppendChild#1: klen(arg2) == len(alignments)
+  callassert [rowWidth] ast.(*BaseNode).AppendChild#2: klen(arg2) == len(alignments)
+  callassert [rectangular] ast.Node.InsertAfter#1: forall r int {kid(asnode(table), r)} :: (0 <= r && r < klen(asnode(table))) ==> klen(kid(asnode(table), r)) == len(alignments)
+  loop 0 inv WF() && 1 <= i
+  loop 1 inv WF() && table != nil && fresh(table) && par(asnode(table)) == nil && klen(asnode(table)) >= 1 && 1 <= i && i + 1 <= j
+  // the table's children are nodes made here, so the paragraph (which existed before) is not among them: the table is not its parent
+  loop 1 inv [kidsFresh] forall r int {kid(asnode(table), r)} :: (0 <= r && r < klen(asnode(table))) ==> int(ifptr(kid(asnode(table), r))) >= old(allocbound())
+  loop 1 inv [rect] forall r int {kid(asnode(table), r)} :: (0 <= r && r < klen(asnode(table))) ==> klen(kid(asnode(table), r)) == len(alignments)
 @*/
